@@ -33,7 +33,7 @@ fn f64_lit(f: f64) -> String {
 /// a fresh value (with its model) built by macros / conversions / parsing
 fn new_value(cfg: &GenCfg) -> Result<(Value, J), Violation> {
     trace::bump(C::dom_built_values);
-    Ok(match draw(30) {
+    Ok(match draw(32) {
         0 => (Value::new(), J::Null),
         1 => {
             let b = draw(2) == 1;
@@ -96,6 +96,16 @@ fn new_value(cfg: &GenCfg) -> Result<(Value, J), Violation> {
             let j = gen::gen_j(cfg);
             let v = libcall("to_value", || sonic_rs::to_value(&crate::jser::SerJ(&j)))?.map_err(|e| Violation::new("dom/to_value", format!("to_value failed: {}", e)))?;
             (v, canonical_numbers(&j))
+        }
+        30 => {
+            // constructors with a capacity (0 included): empty containers that already own storage
+            let cap = *pick(&[0usize, 0, 1, 4, 33]);
+            match draw(4) {
+                0 => (Array::with_capacity(cap).into_value(), J::Arr(vec![])),
+                1 => (Object::with_capacity(cap).into_value(), J::Obj(vec![])),
+                2 => (Array::new().into_value(), J::Arr(vec![])),
+                _ => (Object::new().into_value(), J::Obj(vec![])),
+            }
         }
         26 => {
             // an owned raw number: RawNumber -> to_value keeps the literal in a FastStr node
